@@ -355,7 +355,7 @@ def c01_step(maxsize: int, idle: int, leased_n: int, dropped_mask: int, block: b
 def JOBS(tier):
     jobs = []
     quick = tier == "quick"
-    t = 150 if quick else 1200
+    t = 150 if quick else 420
     allk = list(range(len(RESP_KINDS)))
     alld = list(range(8))
 
